@@ -43,7 +43,18 @@ properties and one *group of source files that no earlier change had touched*
 (the top-level forwarders, `domains`, `oserror`, `issuelink` / `assert`,
 `withstack`, `with_hint` / `with_detail`, `safedetails`, `secondary` /
 `message.go`, the gRPC client interceptor and status helpers, `formatter.go` /
-`safe_details.go` / `reportables.go`, `adapters.go`). Nothing from `/verif` was ever
+`safe_details.go` / `reportables.go`, `adapters.go`), and a ninth round of
+twelve (`V01-r9` … `V12-r9`) in which each agent got all twenty properties, one
+*group of packages* and the instruction to measure the statement coverage of the
+repository's own tests first and to seed the defect in statements that no
+existing test executes but the public API reaches. Two of those twelve were not
+kept: `V08` (nested secondary errors dropped from `SafeDetails()`) does not
+break a property as written — the strings stay in the Sentry message, and C12
+says "report and/or safe details" — and `V06` (an empty stack trace yields a
+`".":0` source location) led to the discovery of the genuine defect F19 (§7);
+after its repair the change is behaviourally neutral on `/repo`'s HEAD (it was
+confirmed, and caught by C15 `one-line-source/presence`, against the commit
+before the fix). Nothing from `/verif` was ever
 shown. Each was **confirmed independently** before being kept
 (`tools/confirm_mutant.sh`): the patch applies to the clean tree, the library
 builds with and without the `verif` tag, the demonstration passes without the
@@ -62,7 +73,7 @@ suite is thin.
 Outcome: **every one of the {n} changes is reported as a VIOLATION by the quick
 tier of the check of the property it was written against** (seed 1). About a
 quarter of them were *missed* by the version of the monitor that existed when
-they arrived (round 1: 3, round 2: 8, round 3: 7, round 4: 2, round 5: 3, round 6: 4, round 7: 7, round 8: 4, plus one
+they arrived (round 1: 3, round 2: 8, round 3: 7, round 4: 2, round 5: 3, round 6: 4, round 7: 7, round 8: 4, round 9: 6, plus one
 regression found by re-running every stored change against its own check after
 the harness had changed — `tools/diag.sh`: `K07-r5` had been caught through a
 coincidence of the generator) and led to the
@@ -91,6 +102,12 @@ of the API.
 * **C02** — the `markempty` kind: `Mark` with a reference whose text is empty
   (`T08-r7`); the unknowing processes of every second case do not link the
   payload message types either (see C04).
+* **C03 / C06** — two more stages, *messages as other versions of the library
+  would send them*: `from-old-peer` (barriers under their previous type name
+  `*barriers.barrierError` with a plain-text message; `V05-r9`) and
+  `payloads-dropped` (every structured payload except nested `EncodedError`s
+  removed, wire messages and reportable strings kept; `V12-r9`); the kind
+  `gstatusf`, `grpc/status.Errorf` with an unsafe argument (`V10-r9`).
 * **C04** — the unknowing-process simulation got a second mode (`NoProto`): the
   type URLs of the payloads of the forgotten types are made unresolvable on the
   way in and restored on the way out, as for a binary built without the package
@@ -121,7 +138,11 @@ of the API.
   with the origin (text, predicates, accessors) (`T12-r7`); one case in ten
   combines an errno (optionally under an os wrapper) with a `Mark` reference or
   a `Join` branch that is one of the os sentinels, so that an OS predicate has
-  two sources (`F04-r8`).
+  two sources (`F04-r8`); the kind `domainraw`, a domain declared directly from
+  the exported string type (no `error domain:` prefix, possibly empty; newlines
+  replaced, since such a string doubles unescaped as the type-mark extension)
+  (`V09-r9`); the kind `withstackdeep`, a stack layer without frames (`V06`,
+  which exposed F19).
 * **C12** — every stage is observed twice: reporting must not consume what it
   reports (`C12-r2`); one case in eight ends in a third-party leaf that declares
   a safe string through `SafeDetails()` and also has a `StackTrace()` method
@@ -132,7 +153,9 @@ of the API.
   (printed directly for library and opaque outermost types) must have an entry
   per visible layer at every stage (`K07-r5`, regression).
 * **C09** — `*net.OpError` with only a local address and with no address
-  (`operrsrc`, `operrnone`) (`T11-r7`).
+  (`operrsrc`, `operrnone`) (`T11-r7`); the kind `oldfmtelide`, a foreign wrapper
+  with an old-style `Format` method whose `Error()` replaces the cause's text
+  (`V02-r9`).
 * **C14** — a leaf and a *wrapper* type with their own `As` methods; the wrapper
   declines every target but one, and the search must go on below it (`C14-r3`).
   A value-typed, non-comparable third-party wrapper (`ncwrap`), and
@@ -171,6 +194,29 @@ of the API.
   scribbled on and the error observed again (`K02-r5`); third-party leaf and
   wrapper types that implement `ErrorHinter` / `ErrorDetailer` themselves
   (`hdleaf`, `hdwrap`, registered so that they survive the network) (`G03-r6`).
+
+Independently of the seeded changes, `tools/coverage.sh` measures which statements
+of the library the monitors' workloads execute (the harness built with
+`-cover -coverpkg=github.com/cockroachdb/errors/...`, every monitor run once at
+the quick tier, counters merged): **96.8 % of the library's statements** (the
+repository's own suite, with its toolchain failures, leaves far more uncovered —
+which is where the round-9 agents put their changes). The first measurement
+(95.0 %) pointed at workload gaps that were then closed: `NotInDomain` /
+`EnsureNotInDomain` (now in the observation record and checked against
+`GetDomain` in C19), `OpaqueErrno.Temporary`, `safedetails.Redact` (now one of
+C03's PII-free outputs), `report.PrintStackTrace`, the top-level `Register*`
+forwarders (the harness types now register through them), `grpc/status.Code`
+(C20), `As` on API misuse (C14: panics exactly when the standard `errors.As`
+does), `Is` with an error whose `Error()` panics (C08), `FormatError` handing an
+error value to the printer (kind `fmtargleaf`), annotations with nothing to
+annotate (C10). What is still not executed is listed in
+`coverage/uncovered.txt` (committed; regenerate with the tool): the
+`ReportError` path that talks to a Sentry hub, `SetWarningFn`, marshalling
+failures of a payload, the `%#v` / `GoStringer` branch, the panic for a handler
+error whose details cannot be marshalled, the `redact.SafeMessager` backward
+compatibility branch (tried and dropped: the redact package itself short-cuts
+such values, so none of the formatting properties is stated for them), and a few
+defensive branches. No monitor says anything about those.
 
 The full cross matrix (every seeded change × every check, quick tier) is in
 `seeded/MATRIX.md`.
